@@ -6,6 +6,7 @@ import (
 	"errors"
 	"fmt"
 	"io"
+	"strings"
 	"testing"
 
 	h2 "github.com/wi1dcard/fingerproxy/pkg/http2"
@@ -730,6 +731,193 @@ func TestMetaHeaders(t *testing.T) {
 				return vstat.Violf("meta|following-frame", "frame after the header block: %v %v", nf, err)
 			}
 			colMeta.Case(fmt.Sprintf("%+v", s), len(parts) > 1, map[string]any{"fields": len(s.Fields), "block_len": len(block), "frames": len(parts), "pad": s.Pad, "prio": s.Prio})
+			return nil
+		}})
+}
+
+// ---- a connection's worth of header blocks through one ReadMetaHeaders decoder --------------------------
+//
+// Several header blocks (each HEADERS [+ CONTINUATION...]) are written by the framer with ONE hpack
+// encoder and read back by one framer with ONE ReadMetaHeaders decoder, as on a real connection. A
+// block is well-formed, carries a malformed field (RFC 7540 8.1.2: stream error PROTOCOL_ERROR, the
+// connection goes on and every later block must still read back exactly - which needs the decoder's
+// block state and dynamic table to stay in step), or is cut short (RFC 7540 4.3: connection error
+// COMPRESSION_ERROR, never a mere stream error).
+
+type MetaBlock struct {
+	Fields    [][2]string `json:"fields"`
+	Defect    string      `json:"defect"` // "", upper-case-name, pseudo-after-regular, bad-value, unknown-pseudo
+	Truncated bool        `json:"truncated"`
+	TableSize int         `json:"table_size"` // >=0: the block starts with a dynamic table size update to this value
+	Cuts      []int       `json:"cuts"`
+}
+
+type MetaSeq struct {
+	Blocks []MetaBlock `json:"blocks"`
+}
+
+var colMetaSeq = vstat.New("C19", "c19.meta-sequence")
+
+func genMetaSeq(t *rapid.T) MetaSeq {
+	var s MetaSeq
+	n := rapid.IntRange(2, 5).Draw(t, "nblocks")
+	names := []string{"x-a", "x-b", "accept", "user-agent", "x-long-header-name"}
+	for i := 0; i < n; i++ {
+		b := MetaBlock{TableSize: -1}
+		b.Fields = [][2]string{{":method", "GET"}, {":scheme", "https"}, {":authority", "example.com"}, {":path", "/" + rapid.StringMatching("[a-z]{0,8}").Draw(t, "path")}}
+		for j := 0; j < rapid.IntRange(0, 5).Draw(t, "nf"); j++ {
+			b.Fields = append(b.Fields, [2]string{rapid.SampledFrom(names).Draw(t, "name"), rapid.StringMatching("[a-z0-9 ]{0,12}").Draw(t, "value")})
+		}
+		switch rapid.IntRange(0, 9).Draw(t, "defect") {
+		case 0, 1:
+			b.Defect = "upper-case-name"
+			b.Fields = append(b.Fields, [2]string{"X-Upper" + rapid.StringMatching("[a-z]{0,3}").Draw(t, "un"), "v"})
+		case 2:
+			b.Defect = "pseudo-after-regular"
+			b.Fields = append(b.Fields, [2]string{"x-first", "1"}, [2]string{":path", "/again"})
+		case 3:
+			b.Defect = "bad-value"
+			b.Fields = append(b.Fields, [2]string{"x-bad", "a\x00b"})
+		case 4:
+			b.Defect = "unknown-pseudo"
+			b.Fields = append([][2]string{{":verif", "1"}}, b.Fields...)
+		}
+		if b.Defect != "" && rapid.Bool().Draw(t, "more") {
+			b.Fields = append(b.Fields, [2]string{"x-after", rapid.StringMatching("[a-z]{1,6}").Draw(t, "av")})
+		}
+		b.Truncated = rapid.IntRange(0, 7).Draw(t, "trunc") == 0
+		if rapid.IntRange(0, 2).Draw(t, "tsu") == 0 {
+			b.TableSize = rapid.SampledFrom([]int{0, 64, 200, 4096}).Draw(t, "ts")
+		}
+		b.Cuts = rapid.SliceOfN(rapid.IntRange(1, 30), 0, 3).Draw(t, "cuts")
+		s.Blocks = append(s.Blocks, b)
+	}
+	return s
+}
+
+func execMetaSeq(s MetaSeq) (v *vstat.Violation, classes []string) {
+	defer func() {
+		if r := recover(); r != nil {
+			v = vstat.Violf("meta-sequence|panic", "panic: %v", r)
+		}
+	}()
+	var hb bytes.Buffer
+	enc := hpack.NewEncoder(&hb)
+	var wire bytes.Buffer
+	w := h2.NewFramer(&wire, nil)
+	nframes := make([]int, len(s.Blocks))
+	for i, b := range s.Blocks {
+		hb.Reset()
+		if b.TableSize >= 0 {
+			enc.SetMaxDynamicTableSize(uint32(b.TableSize))
+		}
+		for _, f := range b.Fields {
+			enc.WriteField(hpack.HeaderField{Name: f[0], Value: f[1]})
+		}
+		block := append([]byte{}, hb.Bytes()...)
+		if b.Truncated {
+			block = append(block, 0x40, 0x05, 'a', 'b') // a literal whose name announces 5 octets and has 2
+		}
+		var parts [][]byte
+		rest := block
+		for _, c := range b.Cuts {
+			if c >= len(rest) {
+				break
+			}
+			parts = append(parts, rest[:c])
+			rest = rest[c:]
+		}
+		parts = append(parts, rest)
+		nframes[i] = len(parts)
+		sid := uint32(1 + 2*i)
+		if err := w.WriteHeaders(h2.HeadersFrameParam{StreamID: sid, BlockFragment: parts[0], EndStream: true, EndHeaders: len(parts) == 1}); err != nil {
+			return vstat.Violf("meta-sequence|write", "%v", err), nil
+		}
+		for j := 1; j < len(parts); j++ {
+			if err := w.WriteContinuation(sid, j == len(parts)-1, parts[j]); err != nil {
+				return vstat.Violf("meta-sequence|write", "%v", err), nil
+			}
+		}
+	}
+	w.WritePing(false, [8]byte{7})
+	r := h2.NewFramer(io.Discard, &wire)
+	r.ReadMetaHeaders = hpack.NewDecoder(4096, nil)
+	prev := "first"
+	for i, b := range s.Blocks {
+		kind := "well-formed"
+		if b.Defect != "" {
+			kind = "malformed"
+		}
+		if b.Truncated {
+			kind = "cut-short"
+		}
+		cl := kind + "-after-" + prev
+		if b.TableSize >= 0 {
+			cl += "+size-update"
+		}
+		classes = append(classes, cl)
+		f, err := r.ReadFrame()
+		var se h2.StreamError
+		var ce h2.ConnectionError
+		isSE, isCE := errors.As(err, &se), errors.As(err, &ce)
+		desc := fmt.Sprintf("block %d (%s, defect %q, %d frames, size update %d, after %s)", i, kind, b.Defect, nframes[i], b.TableSize, prev)
+		switch {
+		case b.Truncated:
+			if err == nil || isSE {
+				return vstat.Violf("meta-sequence|cut-short-block-not-a-connection-error", "%s: ReadFrame returned %v; a header block that does not decode is a connection error COMPRESSION_ERROR (RFC 7540 4.3)", desc, err), classes
+			}
+			if !isCE || (h2.ErrCode(ce) != h2.ErrCodeCompression && !(b.Defect != "" && h2.ErrCode(ce) == h2.ErrCodeProtocol)) {
+				return vstat.Violf("meta-sequence|cut-short-block-wrong-code", "%s: ReadFrame returned %v, want connection error COMPRESSION_ERROR", desc, err), classes
+			}
+			return nil, classes
+		case b.Defect != "":
+			if err == nil {
+				return vstat.Violf("meta-sequence|malformed-block-accepted", "%s: no error", desc), classes
+			}
+			if isCE && h2.ErrCode(ce) == h2.ErrCodeProtocol {
+				return nil, classes // a connection error of the same code is allowed; the connection ends here
+			}
+			if !isSE || se.Code != h2.ErrCodeProtocol || se.StreamID != uint32(1+2*i) {
+				return vstat.Violf("meta-sequence|malformed-block-wrong-error", "%s: ReadFrame returned %v, want stream error PROTOCOL_ERROR on stream %d", desc, err, 1+2*i), classes
+			}
+			prev = "malformed"
+		default:
+			if err != nil {
+				return vstat.Violf("meta-sequence|legal-block-rejected", "%s: ReadFrame returned %v for a block the framer wrote", desc, err), classes
+			}
+			mh, ok := f.(*h2.MetaHeadersFrame)
+			if !ok || mh.Truncated || len(mh.Fields) != len(b.Fields) || mh.StreamID != uint32(1+2*i) {
+				return vstat.Violf("meta-sequence|legal-block-read-back-differs", "%s: got %T %v", desc, f, f), classes
+			}
+			for j, hf := range mh.Fields {
+				if hf.Name != b.Fields[j][0] || hf.Value != b.Fields[j][1] {
+					return vstat.Violf("meta-sequence|legal-block-read-back-differs", "%s: field %d is %q=%q, written %q=%q", desc, j, hf.Name, hf.Value, b.Fields[j][0], b.Fields[j][1]), classes
+				}
+			}
+			prev = "well-formed"
+		}
+	}
+	if nf, err := r.ReadFrame(); err != nil || nf.Header().Type != h2.FramePing {
+		return vstat.Violf("meta-sequence|following-frame", "frame after the header blocks: %v %v", nf, err), classes
+	}
+	return nil, classes
+}
+
+func TestMetaSequence(t *testing.T) {
+	colMetaSeq.Mandatory("well-formed-after-malformed", "well-formed-after-malformed+size-update", "cut-short-after-first", "malformed-after-well-formed")
+	vstat.Run(t, vstat.Spec[MetaSeq]{Col: colMetaSeq, Quick: 6000, Thorough: 200000, Gen: genMetaSeq,
+		Exec: func(s MetaSeq) *vstat.Violation {
+			v, classes := execMetaSeq(s)
+			if v != nil {
+				return v
+			}
+			nt := false
+			for _, c := range classes {
+				if strings.Contains(c, "after-malformed") {
+					nt = true
+				}
+			}
+			colMetaSeq.Case(fmt.Sprintf("%+v", s), nt, map[string]any{"blocks": len(s.Blocks), "classes": classes}, dedup(classes)...)
 			return nil
 		}})
 }
